@@ -32,7 +32,10 @@ pub struct Arena {
 
 impl Arena {
     pub fn new() -> Arena {
-        let total = GUARD + WINDOW + GUARD;
+        // the window ends exactly at a multiple of 4 GiB: an image placed at its end reaches a 4 GiB boundary of
+        // the address space (low 32 bits of its end address are zero), one placed at its start lies just below it
+        const FOUR_GIB: usize = 4 << 30;
+        let total = GUARD + WINDOW + GUARD + FOUR_GIB;
         let p = unsafe {
             libc::mmap(
                 ptr::null_mut(),
@@ -44,7 +47,9 @@ impl Arena {
             )
         };
         assert!(p != libc::MAP_FAILED, "guard reservation failed");
-        let win = unsafe { (p as *mut u8).add(GUARD) };
+        let end = (p as usize + GUARD + WINDOW + FOUR_GIB - 1) / FOUR_GIB * FOUR_GIB;
+        let win = (end - WINDOW) as *mut u8;
+        assert!(win as usize >= p as usize + GUARD && end + GUARD <= p as usize + total);
         // window start is page aligned because GUARD is a multiple of the page size
         let rc = unsafe { libc::mprotect(win as *mut _, WINDOW, libc::PROT_READ | libc::PROT_WRITE) };
         assert_eq!(rc, 0, "mprotect failed");
